@@ -1,4 +1,5 @@
 """C10 — links, bookmarks, notes and comments stay connected."""
+import common
 import re
 
 import apicheck as A
@@ -73,7 +74,7 @@ def connected(case, r):
 
 
 def run(out, tier, seed, model_ok):
-    n = 1500 if tier == "quick" else 20000
+    n = common.deepen(1500 if tier == "quick" else 20000)
     cs = A.gen_cases(seed, n, PROFILE, sm=dict(hid=0, hostile=0.1), tag="c10-")
     for i, c in enumerate(cs):
         c["options"].pop("format", None)
